@@ -11,6 +11,7 @@ import (
 	"mcverif/engine"
 	"mcverif/sched"
 	"mcverif/vfs"
+	"mcverif/vpoint"
 	"mcverif/vsync"
 )
 
@@ -46,116 +47,137 @@ func concurrentStores(c *engine.Ctx) {
 			scen{T: [2]call{{"store", "d1", "a"}, {"store", "d3", "a"}}, Shared: shared},
 		)
 	}
-	c.Bound("concurrent-stores", fmt.Sprintf("%d two-thread scenarios (stores of different identifiers with documents of different / equal length, over existing entries, store next to retrieve, two retrieves, two stores of one identifier; separate backend values or one shared) x every schedule of the file-system steps and synchronisation operations with <=%d preemptions", len(scens), bound))
+	c.Bound("concurrent-stores", fmt.Sprintf("%d two-thread scenarios (stores of different identifiers with documents of different / equal length, over existing entries, store next to retrieve, two retrieves, two stores of one identifier; separate backend values or one shared) x every schedule of the file-system steps and synchronisation operations with <=%d preemptions; and again with every function entry and loop iteration of pkg/storage as a scheduling point (code-point seam), <=1 preemption", len(scens), bound))
 	var fo fsObj
 	vsync.Baseline()
-	for si, sc := range scens {
-		si, sc := si, sc
-		c.Case(func() any { return map[string]any{"previous": sc.Pre, "T0": sc.T[0], "T1": sc.T[1], "one-backend-value": sc.Shared} }, func(t *engine.T) *engine.Violation {
-			var viol *engine.Violation
-			var sandbox, dir string
-			var res [2]result
-			run := func(b *storage.FileSystem, k call) result {
-				if k.Kind == "retrieve" {
-					return guard(func() (*sbom.Document, error) { return b.Retrieve(k.ID, &storage.RetrieveOptions{}) })
+	type pass struct {
+		points bool
+		bound  int
+	}
+	passes := []pass{{false, bound}}
+	if vpoint.Sites > 0 {
+		// second pass: every function entry and loop iteration of pkg/storage is a scheduling point too, one preemption
+		passes = append(passes, pass{true, 1})
+		c.Selftest("seam_points", fmt.Sprintf("true (sites=%d)", vpoint.Sites))
+	} else {
+		c.Selftest("seam_points", "false")
+	}
+	for _, ps := range passes {
+		for si, sc := range scens {
+			si, sc, ps := si, sc, ps
+			bound := ps.bound
+			c.Case(func() any {
+				return map[string]any{"previous": sc.Pre, "T0": sc.T[0], "T1": sc.T[1], "one-backend-value": sc.Shared, "points-inside-calls": ps.points}
+			}, func(t *engine.T) *engine.Violation {
+				vpoint.On = false
+				defer func() { vpoint.On = false }()
+				var viol *engine.Violation
+				var sandbox, dir string
+				var res [2]result
+				run := func(b *storage.FileSystem, k call) result {
+					if k.Kind == "retrieve" {
+						return guard(func() (*sbom.Document, error) { return b.Retrieve(k.ID, &storage.RetrieveOptions{}) })
+					}
+					return guard(func() (*sbom.Document, error) { return nil, b.Store(docVariant(k.Doc, k.ID), &storage.StoreOptions{}) })
 				}
-				return guard(func() (*sbom.Document, error) { return nil, b.Store(docVariant(k.Doc, k.ID), &storage.StoreOptions{}) })
-			}
-			n := sched.Explore(bound, func() []func() {
-				sandbox, _ = os.MkdirTemp(scratchRoot(), "c19c-")
-				dir = filepath.Join(sandbox, "store")
-				_ = os.MkdirAll(dir, 0o755)
-				vfs.Reset(vfs.Passthrough)
-				vfs.Hook = nil
-				vsync.ResetAll()
-				for _, k := range sc.Pre {
-					doStore(dir, docVariant(k.Doc, k.ID), false)
-				}
-				mk := func() *storage.FileSystem {
-					b := storage.NewFileSystem()
-					b.Options.Path = dir
-					return b
-				}
-				b0 := mk()
-				b1 := b0
-				if !sc.Shared {
-					b1 = mk()
-				}
-				vfs.Hook = func(vfs.Step) { sched.Point("fs", fo) }
-				return []func(){
-					func() { res[0] = run(b0, sc.T[0]) },
-					func() { res[1] = run(b1, sc.T[1]) },
-				}
-			}, func(x *sched.Exec) bool {
-				t.Alive()
-				vfs.Hook = nil
-				vfs.Reset(vfs.Passthrough)
-				defer os.RemoveAll(sandbox)
-				t.Transitions(len(x.Points))
-				where := fmt.Sprintf("schedule %v; directory: %v", x.Choices, listTree(sandbox))
-				if x.Deadlock {
-					viol = engine.Violate("deadlock", "concurrent-stores", "%s: no thread can run", where)
-					return false
-				}
-				if x.Diverged != "" {
-					viol = engine.Violate("harness", "", "scheduler: %s", x.Diverged)
-					return false
-				}
-				// what each identifier must hold now
-				want := map[string][]string{}
-				for _, k := range sc.Pre {
-					want[k.ID] = []string{k.Doc}
-				}
-				for i, k := range sc.T {
-					if res[i].Exit || res[i].Panic != "" {
-						viol = engine.Violate("process-exit", "concurrent-stores", "%s: T%d %v: %s %s", where, i, k, res[i].class(), res[i].Panic)
+				n := sched.Explore(bound, func() []func() {
+					sandbox, _ = os.MkdirTemp(scratchRoot(), "c19c-")
+					dir = filepath.Join(sandbox, "store")
+					_ = os.MkdirAll(dir, 0o755)
+					vfs.Reset(vfs.Passthrough)
+					vfs.Hook = nil
+					vsync.ResetAll()
+					for _, k := range sc.Pre {
+						doStore(dir, docVariant(k.Doc, k.ID), false)
+					}
+					mk := func() *storage.FileSystem {
+						b := storage.NewFileSystem()
+						b.Options.Path = dir
+						return b
+					}
+					b0 := mk()
+					b1 := b0
+					if !sc.Shared {
+						b1 = mk()
+					}
+					vfs.Hook = func(vfs.Step) { sched.Point("fs", fo) }
+					vpoint.On = ps.points
+					return []func(){
+						func() { res[0] = run(b0, sc.T[0]) },
+						func() { res[1] = run(b1, sc.T[1]) },
+					}
+				}, func(x *sched.Exec) bool {
+					t.Alive()
+					vpoint.On = false
+					vfs.Hook = nil
+					vfs.Reset(vfs.Passthrough)
+					defer os.RemoveAll(sandbox)
+					t.Transitions(len(x.Points))
+					where := fmt.Sprintf("schedule %v; directory: %v", x.Choices, listTree(sandbox))
+					if x.Deadlock {
+						viol = engine.Violate("deadlock", "concurrent-stores", "%s: no thread can run", where)
 						return false
 					}
-					if k.Kind == "store" {
-						if res[i].Err != nil {
-							viol = engine.Violate("store-should-succeed", "concurrent-stores", "%s: T%d %v failed: %v", where, i, k, res[i].Err)
+					if x.Diverged != "" {
+						viol = engine.Violate("harness", "", "scheduler: %s", x.Diverged)
+						return false
+					}
+					// what each identifier must hold now
+					want := map[string][]string{}
+					for _, k := range sc.Pre {
+						want[k.ID] = []string{k.Doc}
+					}
+					for i, k := range sc.T {
+						if res[i].Exit || res[i].Panic != "" {
+							viol = engine.Violate("process-exit", "concurrent-stores", "%s: T%d %v: %s %s", where, i, k, res[i].class(), res[i].Panic)
 							return false
 						}
-						if o := sc.T[1-i]; o.Kind == "store" && o.ID == k.ID {
-							want[k.ID] = []string{k.Doc, o.Doc}
-						} else {
-							want[k.ID] = []string{k.Doc}
+						if k.Kind == "store" {
+							if res[i].Err != nil {
+								viol = engine.Violate("store-should-succeed", "concurrent-stores", "%s: T%d %v failed: %v", where, i, k, res[i].Err)
+								return false
+							}
+							if o := sc.T[1-i]; o.Kind == "store" && o.ID == k.ID {
+								want[k.ID] = []string{k.Doc, o.Doc}
+							} else {
+								want[k.ID] = []string{k.Doc}
+							}
 						}
 					}
-				}
-				for i, k := range sc.T {
-					if k.Kind != "retrieve" {
-						continue
-					}
-					// the entry is not being written by the other thread in these scenarios: the retrieve sees it
-					if res[i].Err != nil || !equalDocs(res[i].Doc, docVariant(sc.Pre[i].Doc, k.ID)) {
-						viol = engine.Violate("retrieve-after-store", "concurrent-stores", "%s: T%d %v next to %v gives %s %v instead of the stored document", where, i, k, sc.T[1-i], res[i].class(), res[i].Err)
-						return false
-					}
-				}
-				for id, docs := range want {
-					got := doRetrieve(dir, id)
-					t.Validated(1)
-					ok := false
-					for _, dn := range docs {
-						if got.class() == "ok" && equalDocs(got.Doc, docVariant(dn, id)) {
-							ok = true
+					for i, k := range sc.T {
+						if k.Kind != "retrieve" {
+							continue
+						}
+						// the entry is not being written by the other thread in these scenarios: the retrieve sees it
+						if res[i].Err != nil || !equalDocs(res[i].Doc, docVariant(sc.Pre[i].Doc, k.ID)) {
+							viol = engine.Violate("retrieve-after-store", "concurrent-stores", "%s: T%d %v next to %v gives %s %v instead of the stored document", where, i, k, sc.T[1-i], res[i].class(), res[i].Err)
+							return false
 						}
 					}
-					if !ok {
-						viol = engine.Violate("retrieve-after-store", "concurrent-stores", "%s: after T0 %v and T1 %v both returned, Retrieve(%q) gives %s %v instead of %v", where, sc.T[0], sc.T[1], id, got.class(), got.Err, docs)
-						return false
+					for id, docs := range want {
+						got := doRetrieve(dir, id)
+						t.Validated(1)
+						ok := false
+						for _, dn := range docs {
+							if got.class() == "ok" && equalDocs(got.Doc, docVariant(dn, id)) {
+								ok = true
+							}
+						}
+						if !ok {
+							viol = engine.Violate("retrieve-after-store", "concurrent-stores", "%s: after T0 %v and T1 %v both returned, Retrieve(%q) gives %s %v instead of %v", where, sc.T[0], sc.T[1], id, got.class(), got.Err, docs)
+							return false
+						}
 					}
+					t.State(fmt.Sprint("c19c", si, ps.points, x.Choices))
+					return true
+				})
+				vfs.Hook = nil
+				if viol != nil {
+					return viol
 				}
-				t.State(fmt.Sprint("c19c", si, x.Choices))
-				return true
+				t.Outcome(fmt.Sprintf("concurrent-stores-ok schedules=%d", n))
+				return nil
 			})
-			vfs.Hook = nil
-			if viol != nil {
-				return viol
-			}
-			t.Outcome(fmt.Sprintf("concurrent-stores-ok schedules=%d", n))
-			return nil
-		})
+		}
 	}
 }
